@@ -190,8 +190,11 @@ def convert_shard(shard, rec, rng, tmp):
         elif len(mb) >= 2:
             half = len(mb) // 2
             p1, p2 = write(tmp, f"p{k}a.bin", b"".join(mb[:half])), write(tmp, f"p{k}b.bin", b"".join(mb[half:]))
-            args = ["convert", "--in", "binary", "--out", "events", p1, p2]
-            compare_convert(rec, "two-files", args, "binary", "events", "CommandResponseStream", carried, None, dict(kind="convert", args=args[:-2], fmt_in="binary", fmt_out="events", t="CommandResponseStream", container=carried.hex()))
+            pe = write(tmp, f"p{k}e.bin", b"")
+            files = [[p1, p2], [p1, pe, p2], [pe, p1, p2]][(shard.get("offset", 0) + k) % 3]
+            args = ["convert", "--in", "binary", "--out", "events"] + files
+            rec.count("several_files_with_empty" if pe in files else "several_files")
+            compare_convert(rec, "two-files", args, "binary", "events", "CommandResponseStream", carried, None, dict(kind="convert", args=["convert", "--in", "binary", "--out", "events"], fmt_in="binary", fmt_out="events", t="CommandResponseStream", container=carried.hex()))
 
 
 def cc_name(cc):
